@@ -305,7 +305,7 @@ func TestC11(t *testing.T) {
 				return
 			}
 			r.Eval(fmt.Sprintf("evm/leaves=%d/updates=%d/zero=%v/unchanged=%v/multi=%v", min(len(rf.Leaves)/10, 3), min(len(rf.Updates)/5, 3), zeroSeen, unchangedSeen, multi))
-			if i < 2 {
+			if i < 4 {
 				r.Sample(map[string]any{"level": "A", "leaves": len(rf.Leaves), "rollup_updates": len(rf.Updates), "trace_head": trace[:min(len(trace), 12)]})
 			}
 		})
@@ -361,6 +361,7 @@ func TestC11(t *testing.T) {
 				}
 			}
 			r.Eval(fmt.Sprintf("proc/leaves=%d/updates=%d/bigid=%v", min(len(gen.Ref.Leaves)/20, 3), min(len(gen.Ref.Updates)/10, 3), big))
+			r.Sample(map[string]any{"level": "B (processor)", "leaves": len(gen.Ref.Leaves), "rollup_updates": len(gen.Ref.Updates), "rollup_id_2^32-1_used": big})
 		})
 	})
 	r.Set("ref_vs_evm_comparisons", int(refVsEVM.Load()))
@@ -398,6 +399,7 @@ func c11Sim(r *mon.Run, caseID string, g *rand.Rand) {
 			return
 		}
 		r.Eval(fmt.Sprintf("sim/leaves=%d/updates=%d", min(len(rf.Leaves)/20, 3), min(len(rf.Updates)/10, 3)))
+		r.Sample(map[string]any{"level": "A2 (real syncer over the chain simulator)", "leaves": len(rf.Leaves), "rollup_updates": len(rf.Updates)})
 	})
 }
 
